@@ -44,3 +44,4 @@ Theorem C03_lpsd_is_ltf : forall (A : Arith) ph fuel (c : cfg A),
   ltf_bins A ph fuel (lpsd_cfg c) = ltf_bins A ph fuel (mkCfg (cN c) (cfs c) (colap c) (one A) 1%Z (cKdes c) (clogfact c)).
 Proof. exact lpsd_is_ltf. Qed.
 Print Assumptions C03_lpsd_is_ltf.
+Print Assumptions C03_vectorized_grid_real.
